@@ -219,143 +219,74 @@ theorem NP_outputHeader (P : Plane) (r : Rect) (w h : Nat) (b : Bool) :
   · exact NP_outputHeaderSingle P r h b
   · exact NP_outputHeaderMulti P r h b
 
-/-! ## Where the crossings are -/
-
-theorem findInRow_bound {p : Cell → Bool} : ∀ {row : List Cell} {x0 x : Nat},
-    findInRow p row x0 = some x → x0 ≤ x ∧ x - x0 < row.length
-  | [], _, _, h => by simp [findInRow] at h
-  | c :: cs, x0, x, h => by
-    simp only [findInRow] at h
-    split at h
-    · simp only [Option.some.injEq] at h; subst h; simp
-    · have := findInRow_bound h
-      simp only [List.length_cons]
-      omega
-
-theorem findCell_bound {p : Cell → Bool} : ∀ {rows : List (List Cell)} {y0 x y : Nat},
-    findCell p rows y0 = some (x, y) → ∃ r ∈ rows, x < r.length
-  | [], _, _, _, h => by simp [findCell] at h
-  | r :: rs, y0, x, y, h => by
-    simp only [findCell] at h
-    split at h
-    · rename_i x' hx'
-      simp only [Option.some.injEq, Prod.mk.injEq] at h
-      have := findInRow_bound hx'
-      exact ⟨r, by simp, by omega⟩
-    · obtain ⟨r', hr', hlt⟩ := findCell_bound h
-      exact ⟨r', by simp [hr'], hlt⟩
-
 /-! ## `recognize_horizontal_table` -/
 
-theorem mainDoubleCrossing_inv {P : Plane} {x y : Nat} (h : P.mainDoubleCrossing = ok (x, y)) :
-    findCell Cell.isMainX P.rows 0 = some (x, y) := by
-  unfold Plane.mainDoubleCrossing at h
-  split at h
-  · simp only [Outcome.ok.injEq] at h; subst h; assumption
-  · cases h
+theorem NP_width (r : Rect) : NP r.width := NP_ok _
+theorem NP_height (r : Rect) : NP r.height := NP_ok _
 
-/-- On a rectangular plane whose annotation crossing lies to the right of the main crossing,
-`recognize_horizontal_table` does not panic. -/
-theorem NP_recognizeHorizontal (P : Plane) (w : Nat) (hrect : ∀ r ∈ P.rows, r.length = w)
-    (hwd : P.width = w ∨ P.rows = []) (hord : P.crossingsOrdered = true) :
-    NP (recognizeHorizontal P) := by
+theorem NP_mainDoubleCrossing (P : Plane) : NP P.mainDoubleCrossing := by
+  unfold Plane.mainDoubleCrossing
+  split
+  · exact NP_ok _
+  · exact NP_error _
+
+/-- `recognize_horizontal_table` does not panic, whatever the plane. -/
+theorem NP_recognizeHorizontal (P : Plane) : NP (recognizeHorizontal P) := by
+  have hm := NP_mainDoubleCrossing P
+  have np1 : NP P.horzInputClauseRect := by
+    unfold Plane.horzInputClauseRect
+    split
+    · exact NP_ok _
+    · exact NP_error _
+    · rename_i s h; exact absurd h (hm s)
+  have np2 : NP P.horzInputEntriesRect := by
+    unfold Plane.horzInputEntriesRect
+    split
+    · exact NP_ok _
+    · exact NP_error _
+    · rename_i s h; exact absurd h (hm s)
+  have np3 : NP P.horzOutputClauseRect := by
+    unfold Plane.horzOutputClauseRect
+    split
+    · split <;> exact NP_ok _
+    · exact NP_error _
+    · rename_i s h; exact absurd h (hm s)
+  have np4 : NP P.horzOutputEntriesRect := by
+    unfold Plane.horzOutputEntriesRect
+    split
+    · split <;> exact NP_ok _
+    · exact NP_error _
+    · rename_i s h; exact absurd h (hm s)
+  have np5 : NP P.horzAnnotationClausesRect := by
+    unfold Plane.horzAnnotationClausesRect; split <;> exact NP_ok _
+  have np6 : NP P.horzAnnotationEntriesRect := by
+    unfold Plane.horzAnnotationEntriesRect; split <;> exact NP_ok _
   unfold recognizeHorizontal
-  cases hm : P.mainDoubleCrossing with
-  | error e => simp only [Plane.horzInputClauseRect, hm]; exact NP_error _
-  | panic s =>
-    unfold Plane.mainDoubleCrossing at hm
-    split at hm <;> cases hm
-  | ok p =>
-    obtain ⟨x, y⟩ := p
-    have hfind := mainDoubleCrossing_inv hm
-    obtain ⟨rm, hrm, hxlt⟩ := findCell_bound hfind
-    have hxw : x < w := by rw [← hrect rm hrm]; exact hxlt
-    have hne : P.rows ≠ [] := by intro h; rw [h] at hrm; simp at hrm
-    have hwidth : P.width = w := by
-      rcases hwd with h | h
-      · exact h
-      · exact absurd h hne
-    -- the output clause rectangle has a non-negative width
-    have hout : ∀ r, P.horzOutputClauseRect = ok r → r.left ≤ r.right := by
-      intro r hr
-      unfold Plane.horzOutputClauseRect at hr
-      rw [hm] at hr
-      simp only at hr
-      cases hq : P.horizontalDoubleCrossing with
-      | none =>
-        rw [hq] at hr
-        simp only [Outcome.ok.injEq] at hr
-        subst hr
-        simp only [hwidth]; omega
-      | some q =>
-        obtain ⟨qx, qy⟩ := q
-        rw [hq] at hr
-        simp only [Outcome.ok.injEq] at hr
-        subst hr
-        unfold Plane.crossingsOrdered at hord
-        rw [hm, hq] at hord
-        simp only [decide_eq_true_eq] at hord
-        simp only; omega
-    have hann : ∀ r, P.horzAnnotationClausesRect = ok r → r.left ≤ r.right := by
-      intro r hr
-      unfold Plane.horzAnnotationClausesRect at hr
-      cases hq : P.horizontalDoubleCrossing with
-      | none => rw [hq] at hr; simp only [Outcome.ok.injEq] at hr; subst hr; simp [Rect.zero]
-      | some q =>
-        obtain ⟨qx, qy⟩ := q
-        rw [hq] at hr
-        simp only [Outcome.ok.injEq] at hr
-        subst hr
-        obtain ⟨rq, hrq, hqlt⟩ := findCell_bound (p := Cell.isHorzX) hq
-        have : qx < w := by rw [← hrect rq hrq]; exact hqlt
-        simp only [hwidth]; omega
-    have NPw : ∀ r : Rect, r.left ≤ r.right → NP r.width := by
-      intro r h; unfold Rect.width; rw [if_pos h]; exact NP_ok _
-    have NPh : ∀ r : Rect, r.top ≤ r.bottom → NP r.height := by
-      intro r h; unfold Rect.height; rw [if_pos h]; exact NP_ok _
-    have e1 : P.horzInputClauseRect = ok ⟨0, 0, x, y⟩ := by simp [Plane.horzInputClauseRect, hm]
-    have NPrect : ∀ {o : Outcome Rect}, (∀ s, o ≠ .panic s) → NP o := fun h => h
-    have np2 : NP P.horzInputEntriesRect := by
-      simp only [Plane.horzInputEntriesRect, hm]; exact NP_ok _
-    have np3 : NP P.horzOutputClauseRect := by
-      simp only [Plane.horzOutputClauseRect, hm]; split <;> exact NP_ok _
-    have np4 : NP P.horzOutputEntriesRect := by
-      simp only [Plane.horzOutputEntriesRect, hm]; split <;> exact NP_ok _
-    have np5 : NP P.horzAnnotationClausesRect := by
-      unfold Plane.horzAnnotationClausesRect; split <;> exact NP_ok _
-    have np6 : NP P.horzAnnotationEntriesRect := by
-      unfold Plane.horzAnnotationEntriesRect; split <;> exact NP_ok _
-    rw [e1]
-    simp only [Outcome.ok_bind]
-    refine NP_bind (NPw _ (Nat.zero_le _)) (fun icc _ => ?_)
-    refine NP_bind (NPh _ (Nat.zero_le _)) (fun h _ => ?_)
-    refine NP_bind (NP_inputValuesPresent P _ _) (fun ivp _ => ?_)
-    refine NP_bind (NP_rowTexts P _ _ _) (fun exprs _ => ?_)
-    refine NP_bind (NP_inputValuesRow P _ _) (fun ivals _ => ?_)
-    refine NP_bind np2 (fun r2 _ => ?_)
-    refine NP_bind (NP_rectTexts P _) (fun ients _ => ?_)
-    refine NP_bind np3 (fun ro hro => ?_)
-    refine NP_bind (NPw _ (hout ro hro)) (fun occ _ => ?_)
-    have hoh : NP (outputClauseHeight ro occ) := by
-      unfold outputClauseHeight
-      split
-      · exact NP_ok _
-      · apply NPh
-        unfold Plane.horzOutputClauseRect at hro
-        rw [hm] at hro
-        simp only at hro
-        split at hro <;> (simp only [Outcome.ok.injEq] at hro; subst hro; exact Nat.zero_le _)
-    refine NP_bind hoh (fun oh _ => ?_)
-    refine NP_bind (NP_outputHeader P _ _ _ _) (fun out _ => ?_)
-    refine NP_bind np4 (fun r4 _ => ?_)
-    refine NP_bind (NP_rectTexts P _) (fun oents _ => ?_)
-    refine NP_bind np5 (fun ra hra => ?_)
-    refine NP_bind (NPw _ (hann ra hra)) (fun acc _ => ?_)
-    refine NP_bind (NP_rowTexts P _ _ _) (fun anns _ => ?_)
-    refine NP_bind np6 (fun r6 _ => ?_)
-    refine NP_bind (NP_rectTexts P _) (fun aents _ => ?_)
-    exact NP_ok _
-
+  refine NP_bind np1 (fun r1 _ => ?_)
+  refine NP_bind (NP_width _) (fun icc _ => ?_)
+  refine NP_bind (NP_height _) (fun h _ => ?_)
+  refine NP_bind (NP_inputValuesPresent P _ _) (fun ivp _ => ?_)
+  refine NP_bind (NP_rowTexts P _ _ _) (fun exprs _ => ?_)
+  refine NP_bind (NP_inputValuesRow P _ _) (fun ivals _ => ?_)
+  refine NP_bind np2 (fun r2 _ => ?_)
+  refine NP_bind (NP_rectTexts P _) (fun ients _ => ?_)
+  refine NP_bind np3 (fun ro _ => ?_)
+  refine NP_bind (NP_width _) (fun occ _ => ?_)
+  have hoh : NP (outputClauseHeight ro occ) := by
+    unfold outputClauseHeight
+    split
+    · exact NP_ok _
+    · exact NP_height _
+  refine NP_bind hoh (fun oh _ => ?_)
+  refine NP_bind (NP_outputHeader P _ _ _ _) (fun out _ => ?_)
+  refine NP_bind np4 (fun r4 _ => ?_)
+  refine NP_bind (NP_rectTexts P _) (fun oents _ => ?_)
+  refine NP_bind np5 (fun ra _ => ?_)
+  refine NP_bind (NP_width _) (fun acc _ => ?_)
+  refine NP_bind (NP_rowTexts P _ _ _) (fun anns _ => ?_)
+  refine NP_bind np6 (fun r6 _ => ?_)
+  refine NP_bind (NP_rectTexts P _) (fun aents _ => ?_)
+  exact NP_ok _
 
 /-- the annotation names are as many as the annotation clause count -/
 theorem recognizeHorizontal_anns {P : Plane} {h : Horz} (hh : recognizeHorizontal P = ok h) :
@@ -385,10 +316,8 @@ theorem recognizeHorizontal_anns {P : Plane} {h : Horz} (hh : recognizeHorizonta
   have hl := mapM_length _ _ hanns
   simp only [List.length_range'] at hl
   unfold Rect.width at hacc
-  split at hacc
-  · simp only [Outcome.ok.injEq] at hacc
-    simp only [hl, hacc]
-  · cases hacc
+  simp only [Outcome.ok.injEq] at hacc
+  simp only [hl, hacc]
 
 /-! ## `build` -/
 
@@ -397,6 +326,18 @@ theorem NP_idx {α : Type} {xs : List α} {i : Nat} (h : i < xs.length) : NP (id
 
 theorem NP_optAt {xs : List Text} {i : Nat} (h : xs.length > 0 → i < xs.length) : NP (optAt xs i) := by
   unfold optAt
+  split
+  · rename_i hpos
+    have := NP_idx (h hpos)
+    split
+    · exact NP_ok _
+    · exact NP_error _
+    · rename_i s hs; exact absurd hs (this s)
+  · exact NP_ok _
+
+theorem NP_optValueAt {xs : List Text} {i : Nat} (h : xs.length > 0 → i < xs.length) :
+    NP (optValueAt xs i) := by
+  unfold optValueAt
   split
   · rename_i hpos
     have := NP_idx (h hpos)
@@ -528,7 +469,7 @@ theorem NP_buildTable (r : Recognized)
   · have hi' := (mem_range'_lt hi).2
     unfold buildInput
     refine NP_bind (NP_idx (by rw [hs.f2]; omega)) (fun e _ => ?_)
-    refine NP_bind (NP_optAt (fun hp => by rw [hs.f3 hp]; omega)) (fun v _ => NP_ok _)
+    refine NP_bind (NP_optValueAt (fun hp => by rw [hs.f3 hp]; omega)) (fun v _ => NP_ok _)
   refine NP_bind (NP_mapM _ (fun i hi => ?_)) (fun outputs _ => ?_)
   · have hi' := (mem_range'_lt hi).2
     unfold buildOutput
@@ -536,7 +477,7 @@ theorem NP_buildTable (r : Recognized)
     · by_cases hgt : r.horz.outputClauseCount > 1
       · rw [hs.f5 hgt]; omega
       · have := hs.f6 hgt; omega
-    refine NP_bind (NP_optAt (fun hp => by rw [hs.f7 hp]; omega)) (fun v _ => NP_ok _)
+    refine NP_bind (NP_optValueAt (fun hp => by rw [hs.f7 hp]; omega)) (fun v _ => NP_ok _)
   refine NP_bind (NP_mapM _ (fun i hi => ?_)) (fun annotations _ => ?_)
   · have hi' := (mem_range'_lt hi).2
     exact NP_idx (by rw [hann]; omega)
@@ -546,148 +487,101 @@ theorem NP_buildTable (r : Recognized)
 
 /-! ## Orientation -/
 
-theorem NP_skipToHOut : ∀ (rows : List (List Cell)), (∀ r ∈ rows, r ≠ []) →
-    (∃ r ∈ rows, r.head? = some Cell.hOut) → NP (skipToHOut rows)
-  | [], _, ⟨_, h, _⟩ => by simp at h
-  | [] :: _, hne, _ => absurd rfl (hne [] (by simp))
-  | (c :: cs) :: rest, hne, ⟨r, hr, hh⟩ => by
+theorem NP_skipToHOut : ∀ (rows : List (List Cell)), NP (skipToHOut rows)
+  | [] => NP_error _
+  | [] :: _ => NP_error _
+  | (c :: cs) :: rest => by
     simp only [skipToHOut]
     split
     · exact NP_ok _
-    · rename_i hc
-      apply NP_skipToHOut rest (fun r' hr' => hne r' (by simp [hr']))
-      simp only [List.mem_cons] at hr
-      rcases hr with hr | hr
-      · subst hr
-        simp only [List.head?_cons, Option.some.injEq] at hh
-        subst hh
-        simp [Cell.isHOut] at hc
-      · exact ⟨r, hr, hh⟩
+    · exact NP_skipToHOut rest
 
-theorem skipToHOut_sub : ∀ (rows below : List (List Cell)), skipToHOut rows = ok below →
-    ∀ r ∈ below, r ∈ rows
-  | [], _, h => by simp [skipToHOut] at h
-  | [] :: _, _, h => by simp [skipToHOut] at h
-  | (c :: cs) :: rest, below, h => by
-    simp only [skipToHOut] at h
-    split at h
-    · simp only [Outcome.ok.injEq] at h; subst h
-      intro r hr; simp [hr]
-    · intro r hr
-      have := skipToHOut_sub rest below h r hr
-      simp [this]
-
-theorem NP_scanNumbers (site : Site) : ∀ (cells : List (Option Cell)) (mx : Nat),
-    (∀ c ∈ cells, c ≠ none) → NP (scanNumbers site cells mx)
-  | [], _, _ => NP_ok _
-  | none :: _, _, h => absurd rfl (h none (by simp))
-  | some c :: rest, mx, h => by
+theorem NP_scanNumbers : ∀ (cells : List (Option Cell)) (mx : Nat), NP (scanNumbers cells mx)
+  | [], _ => NP_ok _
+  | none :: _, _ => NP_error _
+  | some c :: rest, mx => by
     cases c with
     | region n t =>
       simp only [scanNumbers]
       split
       · split
         · exact NP_error _
-        · exact NP_scanNumbers site rest _ (fun c hc => h c (by simp [hc]))
+        · exact NP_scanNumbers rest _
       · exact NP_ok _
     | _ => simp only [scanNumbers]; exact NP_ok _
 
-theorem NP_skipToVOut : ∀ (row : List Cell), Cell.vOut ∈ row → NP (skipToVOut row)
-  | [], h => by simp at h
-  | c :: rest, h => by
+theorem NP_skipToVOut : ∀ (row : List Cell), NP (skipToVOut row)
+  | [] => NP_error _
+  | c :: rest => by
     simp only [skipToVOut]
     split
     · exact NP_ok _
-    · rename_i hc
-      apply NP_skipToVOut rest
-      simp only [List.mem_cons] at h
-      rcases h with h | h
-      · subst h; simp [Cell.isVOut] at hc
-      · exact h
+    · exact NP_skipToVOut rest
 
-section Shape
-variable (P : Plane) (hne : ∀ r ∈ P.rows, r ≠ [])
-  (hhout : ∃ r ∈ P.rows, r.head? = some Cell.hOut)
-  (hlast : ∃ last, P.rows.getLast? = some last ∧ Cell.vOut ∈ last)
-include hne
+theorem NP_horizontalRuleNumbers (P : Plane) : NP (recognizeHorizontalRuleNumbers P) := by
+  unfold recognizeHorizontalRuleNumbers
+  split
+  · exact NP_error _
+  · have h1 := NP_skipToHOut P.rows
+    split
+    · rename_i below _
+      have h2 := NP_scanNumbers (below.map (·.head?)) 0
+      split
+      · exact NP_ok _
+      · exact NP_ok _
+      · exact NP_error _
+      · rename_i s hs; exact absurd hs (h2 s)
+    · exact NP_error _
+    · rename_i s hs; exact absurd hs (h1 s)
 
-theorem NP_hpPlacement : NP (recognizeHitPolicyPlacement P) := by
+theorem NP_verticalRuleNumbers (P : Plane) : NP (recognizeVerticalRuleNumbers P) := by
+  unfold recognizeVerticalRuleNumbers
+  split
+  · exact NP_error _
+  · rename_i last _
+    have h1 := NP_skipToVOut last
+    split
+    · rename_i after _
+      have h2 := NP_scanNumbers (after.map some) 0
+      split
+      · exact NP_ok _
+      · exact NP_ok _
+      · exact NP_error _
+      · rename_i s hs; exact absurd hs (h2 s)
+    · exact NP_error _
+    · rename_i s hs; exact absurd hs (h1 s)
+
+theorem NP_rnPlacement (P : Plane) : NP (recognizeRuleNumbersPlacement P) := by
+  have hH := NP_horizontalRuleNumbers P
+  have hV := NP_verticalRuleNumbers P
+  unfold recognizeRuleNumbersPlacement
+  generalize recognizeHorizontalRuleNumbers P = o1 at hH ⊢
+  generalize recognizeVerticalRuleNumbers P = o2 at hV ⊢
+  cases o1 with
+  | ok p =>
+    cases p with
+    | notPresent => exact hV
+    | leftBelow n => exact NP_ok _
+    | rightAfter n => exact NP_ok _
+  | error e =>
+    cases o2 with
+    | ok p => cases p <;> first | exact NP_ok _ | exact NP_error _
+    | error e' => exact NP_error _
+    | panic s => exact absurd rfl (hV s)
+  | panic s => exact absurd rfl (hH s)
+
+theorem NP_hpPlacement (P : Plane) : NP (recognizeHitPolicyPlacement P) := by
   unfold recognizeHitPolicyPlacement
   split
   · exact NP_error _
-  · rename_i first rest heq
-    have hf : first ≠ [] := hne first (by rw [heq]; simp)
-    cases first with
-    | nil => exact absurd rfl hf
-    | cons c tl =>
-      simp only
-      split
-      · exact NP_ok _
-      · cases hl : (List.getLast? ((c :: tl) :: rest)) with
-        | none => simp at hl
-        | some last =>
-          have hmem : last ∈ P.rows := by rw [heq]; exact List.mem_of_getLast? hl
-          have hlne := hne last hmem
-          cases last with
-          | nil => exact absurd rfl hlne
-          | cons c' tl' =>
-            simp only
-            split <;> exact NP_ok _
-
-include hhout hlast
-
-theorem NP_rnPlacement : NP (recognizeRuleNumbersPlacement P) := by
-  have hH : NP (recognizeHorizontalRuleNumbers P) := by
-    unfold recognizeHorizontalRuleNumbers
-    have h1 := NP_skipToHOut P.rows hne hhout
+  · simp only
     split
-    · rename_i below hb
-      have hsub := skipToHOut_sub _ _ hb
-      have h2 : NP (scanNumbers .horzRuleIndex (below.map (·.head?)) 0) := by
-        apply NP_scanNumbers
-        intro c hc
-        simp only [List.mem_map] at hc
-        obtain ⟨r, hr, rfl⟩ := hc
-        have := hne r (hsub r hr)
-        cases r with
-        | nil => exact absurd rfl this
-        | cons x xs => simp
-      split
-      · exact NP_ok _
-      · exact NP_ok _
-      · exact NP_error _
-      · rename_i s hs; exact absurd hs (h2 s)
-    · exact NP_error _
-    · rename_i s hs; exact absurd hs (h1 s)
-  have hV : NP (recognizeVerticalRuleNumbers P) := by
-    unfold recognizeVerticalRuleNumbers
-    obtain ⟨last, hl, hv⟩ := hlast
-    rw [hl]
-    simp only
-    have h1 := NP_skipToVOut last hv
-    split
-    · rename_i after _
-      have h2 : NP (scanNumbers .vertSkipIndex (after.map some) 0) := by
-        apply NP_scanNumbers
-        intro c hc
-        simp only [List.mem_map] at hc
-        obtain ⟨x, _, rfl⟩ := hc
-        simp
-      split
-      · exact NP_ok _
-      · exact NP_ok _
-      · exact NP_error _
-      · rename_i s hs; exact absurd hs (h2 s)
-    · exact NP_error _
-    · rename_i s hs; exact absurd hs (h1 s)
-  unfold recognizeRuleNumbersPlacement
-  split
-  · exact hV
-  · exact hH
+    · exact NP_ok _
+    · split <;> exact NP_ok _
 
-theorem NP_orientation : NP (recognizeOrientation P) := by
-  have h1 := NP_hpPlacement P hne
-  have h2 := NP_rnPlacement P hne hhout hlast
+theorem NP_orientation (P : Plane) : NP (recognizeOrientation P) := by
+  have h1 := NP_hpPlacement P
+  have h2 := NP_rnPlacement P
   unfold recognizeOrientation
   generalize recognizeHitPolicyPlacement P = o1 at h1 ⊢
   generalize recognizeRuleNumbersPlacement P = o2 at h2 ⊢
@@ -706,8 +600,45 @@ theorem NP_orientation : NP (recognizeOrientation P) := by
         · cases hp <;> cases rn <;> first | exact NP_ok _ | exact NP_error _
         · cases hp <;> cases rn <;> first | exact NP_ok _ | exact NP_error _
 
-end Shape
+/-! ## `pivot` -/
 
+theorem NP_takeHeads : ∀ (rows : List (List Cell)), NP (takeHeads rows)
+  | [] => NP_ok _
+  | [] :: _ => NP_error _
+  | (c :: cs) :: rest => by
+    have := NP_takeHeads rest
+    simp only [takeHeads]
+    split
+    · exact NP_ok _
+    · exact NP_error _
+    · rename_i s hs; exact absurd hs (this s)
+
+theorem NP_pivotLoop : ∀ (k : Nat) (rows : List (List Cell)), NP (pivotLoop k rows)
+  | 0, _ => NP_ok _
+  | k + 1, rows => by
+    have h1 := NP_takeHeads rows
+    simp only [pivotLoop]
+    split
+    · rename_i hs ts _
+      have h2 := NP_pivotLoop k ts
+      split
+      · exact NP_ok _
+      · exact NP_error _
+      · rename_i s hs'; exact absurd hs' (h2 s)
+    · exact NP_error _
+    · rename_i s hs; exact absurd hs (h1 s)
+
+theorem NP_pivot (P : Plane) : NP P.pivot := by
+  have : NP (pivotRows P.rows) := by
+    unfold pivotRows
+    split
+    · exact NP_error _
+    · exact NP_pivotLoop _ _
+  unfold Plane.pivot
+  split
+  · exact NP_ok _
+  · exact NP_error _
+  · rename_i s hs; exact absurd hs (this s)
 
 /-! ## The whole plane logic -/
 
@@ -727,55 +658,14 @@ theorem recognizeComponents_inv {P : Plane} {r : Recognized} (h : recognizeCompo
     exact ⟨_, hhz⟩
   · cases h
 
-theorem width_of_rect {P : Plane} {w : Nat} (h : ∀ r ∈ P.rows, r.length = w) :
-    P.width = w ∨ P.rows = [] := by
-  unfold Plane.width
-  cases hr : P.rows with
-  | nil => exact Or.inr rfl
-  | cons r rs => exact Or.inl (h r (by rw [hr]; simp))
-
-/-- On every plane of the scanner's shape the plane logic returns a table or an error. -/
-theorem NP_recognizePlane (P : Plane) (hs : P.scannerShape = true) : NP (recognizePlane P) := by
-  simp only [Plane.scannerShape, Bool.and_eq_true, decide_eq_true_eq, List.all_eq_true,
-    List.any_eq_true, beq_iff_eq] at hs
-  obtain ⟨⟨⟨⟨⟨⟨h2, hw0⟩, hall⟩, hany⟩, hlast⟩, hord1⟩, hord2⟩ := hs
-  have hrows : P.rows ≠ [] := by intro h; rw [h] at h2; simp at h2
-  have hne : ∀ r ∈ P.rows, r ≠ [] := by
-    intro r hr h
-    have := hall r hr
-    rw [h] at this
-    simp at this; omega
-  have hlast' : ∃ last, P.rows.getLast? = some last ∧ Cell.vOut ∈ last := by
-    cases hl : P.rows.getLast? with
-    | none => rw [hl] at hlast; simp at hlast
-    | some last =>
-      rw [hl] at hlast
-      exact ⟨last, rfl, by simpa using hlast⟩
+/-- On every plane the plane logic returns a table or an error. -/
+theorem NP_recognizePlane (P : Plane) : NP (recognizePlane P) := by
   have hcomp : NP (recognizeComponents P) := by
     unfold recognizeComponents
-    refine NP_bind (NP_orientation P hne hany hlast') (fun o _ => ?_)
+    refine NP_bind (NP_orientation P) (fun o _ => ?_)
     split
-    · -- rules as rows
-      have hrect : ∀ r ∈ P.removeFirstColumn.rows, r.length = P.width - 1 := by
-        intro r hr
-        simp only [Plane.removeFirstColumn, List.mem_map] at hr
-        obtain ⟨r0, hr0, rfl⟩ := hr
-        simp [hall r0 hr0]
-      exact NP_bind (NP_recognizeHorizontal _ _ hrect (width_of_rect hrect) hord1) (fun _ _ => NP_ok _)
-    · -- rules as columns
-      have hrd : Rectangular P.width P.rows.dropLast :=
-        fun r hr => hall r (List.dropLast_subset _ hr)
-      have hdne : P.rows.dropLast ≠ [] := by
-        intro h
-        have := congrArg List.length h
-        simp at this; omega
-      have hpiv : P.removeLastRow.pivot = ok ⟨P.infoName, trPure P.width P.rows.dropLast⟩ := by
-        simp [Plane.removeLastRow, Plane.pivot, pivotRows_rect hrd hdne]
-      rw [hpiv] at hord2 ⊢
-      simp only [Outcome.ok_bind]
-      have hrect := rectangular_trPure P.width P.rows.dropLast
-      exact NP_bind (NP_recognizeHorizontal ⟨P.infoName, trPure P.width P.rows.dropLast⟩ _ hrect
-        (width_of_rect hrect) hord2) (fun _ _ => NP_ok _)
+    · exact NP_bind (NP_recognizeHorizontal _) (fun _ _ => NP_ok _)
+    · exact NP_bind (NP_pivot _) (fun P' _ => NP_bind (NP_recognizeHorizontal _) (fun _ _ => NP_ok _))
     · exact NP_error _
   unfold recognizePlane
   cases hc : recognizeComponents P with
